@@ -7,6 +7,7 @@ package badger
 
 import (
 	"bytes"
+	"sync/atomic"
 	"github.com/pkg/errors"
 )
 
@@ -40,6 +41,7 @@ type entry struct {
 
 type DB struct {
 	opts    Options
+	mu      int32 // spin lock: the real library is safe for concurrent use, and native replays run real goroutines
 	kvs     []entry
 	Commits int // committed write transactions / flushed batches so far
 	CrashAt int // -1 never; otherwise only the first CrashAt commits take effect
@@ -109,7 +111,15 @@ func (db *DB) RawGet(k []byte) ([]byte, bool) {
 	return nil, false
 }
 
+func (db *DB) lock() {
+	for !atomic.CompareAndSwapInt32(&db.mu, 0, 1) {
+	}
+}
+func (db *DB) unlock() { atomic.StoreInt32(&db.mu, 0) }
+
 func (db *DB) sorted() []entry {
+	db.lock()
+	defer db.unlock()
 	return append([]entry{}, db.kvs...)
 }
 
@@ -140,6 +150,8 @@ func (db *DB) commit(ops []op) {
 	if len(ops) == 0 {
 		return
 	}
+	db.lock()
+	defer db.unlock()
 	db.Commits++
 	if db.CrashAt >= 0 && db.Commits > db.CrashAt {
 		return // the process died before this commit reached the disk
@@ -174,6 +186,8 @@ func (txn *Txn) Get(key []byte) (*Item, error) {
 			return &Item{txn.ops[i].k, txn.ops[i].v}, nil
 		}
 	}
+	txn.db.lock()
+	defer txn.db.unlock()
 	if i := txn.db.find(key); i >= 0 {
 		return &Item{txn.db.kvs[i].k, txn.db.kvs[i].v}, nil
 	}
